@@ -17,6 +17,7 @@ import (
 	"crypto/sha256"
 	"encoding/hex"
 	"fmt"
+	"maps"
 	"math"
 	"reflect"
 	"regexp"
@@ -1780,11 +1781,13 @@ func putAtPath(row Map, path string, value any) {
 		}
 	}
 	for _, key := range keys[:len(keys)-1] {
-		next, ok := row[key].(Map)
-		if !ok {
-			next = make(Map)
-			row[key] = next
+		// an object that is already there may be the caller's (GROUP BY a, a.c stores the row's own a):
+		// the path continues in a copy of it, never in the object itself
+		next := make(Map)
+		if existing, ok := row[key].(Map); ok {
+			maps.Copy(next, existing)
 		}
+		row[key] = next
 		row = next
 	}
 	row[keys[len(keys)-1]] = value
